@@ -174,56 +174,78 @@ def tryRemoveRights (c : Cfg) (g : Game) (p : Player) (side : Side) : Game :=
   if !(Rights.has g.rights p side) then g
   else { g with rights := Rights.remove g.rights p side, zobrist := g.zobrist ^^^ c.zCastle p side }
 
-/-- `Game::make_move` -/
-def makeMove (c : Cfg) (g : Game) (mv : Move) : Option Game := do
-  let src := mv.src
-  let dst := mv.dst
-  let player := g.player
-  let other := player.other
-  let captured := g.board.pieceAt dst
+/-- `make_move`, part 1: history entry, lift the mover, remove a captured man, put the mover (or the
+    promoted piece) down, remove the pawn taken en passant. Returns the moved and captured men. -/
+def mmPieces (c : Cfg) (g : Game) (mv : Move) : Option (Game × Piece × Option Piece) := do
+  let captured := g.board.pieceAt mv.dst
   let hist : History :=
     { mv := some mv, captured, rights := g.rights, ep := g.ep, halfmove := g.halfmove,
       zobrist := g.zobrist, inc := g.inc }
   let g := { g with history := hist :: g.history }
-  let (g, moved) ← removeAt c g src
-  let g ← (if captured.isSome then (removeAt c g dst).map (·.1) else some g)
+  let (g, moved) ← removeAt c g mv.src
+  let g ← (if captured.isSome then (removeAt c g mv.dst).map (·.1) else some g)
   let g := match mv.promotion with
-    | some pr => setAt c g dst ⟨pr.piece, player⟩
-    | none => setAt c g dst moved
+    | some pr => setAt c g mv.dst ⟨pr.piece, g.player⟩
+    | none => setAt c g mv.dst moved
   let g ← (if mv.isEnPassant then do
-              let capSq ← dst.backward player
+              let capSq ← mv.dst.backward g.player
               (removeAt c g capSq).map (·.1)
             else some g)
-  let newEp ←
-    (if moved.kind = .pawn ∧ mem (pawnBackRank player) src ∧ mem (pawnDoublePushRank player) dst then
-      let toBB := bb dst
-      let attackers := BB.west toBB ||| BB.east toBB
-      if (attackers &&& g.board.pawnsOf other) ≠ 0#64 then (src.forward player).map some else some none
-    else some none)
-  let g := { g with zobrist := g.zobrist ^^^ c.zEpOpt g.ep ^^^ c.zEpOpt newEp, ep := newEp }
-  let g ← (if mv.isCastling then
-              match castleSquares player dst with
-              | some (rf, rt) => do
-                let (g, rook) ← removeAt c g rf
-                some (setAt c g rt rook)
-              | none => some g
-            else some g)
+  pure (g, moved, captured)
+
+/-- `make_move`, part 2: the new en-passant target (only with an enemy pawn beside the pushed pawn) -/
+def mmNewEp (g : Game) (mv : Move) (moved : Piece) : Option (Option Sq) :=
+  let player := g.player
+  if moved.kind = .pawn ∧ mem (pawnBackRank player) mv.src ∧ mem (pawnDoublePushRank player) mv.dst then
+    let toBB := bb mv.dst
+    let attackers := BB.west toBB ||| BB.east toBB
+    if (attackers &&& g.board.pawnsOf player.other) ≠ 0#64 then (mv.src.forward player).map some else some none
+  else some none
+
+def mmSetEp (c : Cfg) (g : Game) (newEp : Option Sq) : Game :=
+  { g with zobrist := g.zobrist ^^^ c.zEpOpt g.ep ^^^ c.zEpOpt newEp, ep := newEp }
+
+/-- `make_move`, part 3: the castling rook -/
+def mmCastle (c : Cfg) (g : Game) (mv : Move) : Option Game :=
+  if mv.isCastling then
+    match castleSquares g.player mv.dst with
+    | some (rf, rt) => do
+      let (g, rook) ← removeAt c g rf
+      some (setAt c g rt rook)
+    | none => some g
+  else some g
+
+/-- `make_move`, part 4: castling rights lost by the mover and by a captured rook -/
+def mmRights (c : Cfg) (g : Game) (mv : Move) (moved : Piece) (captured : Option Piece) : Game :=
+  let player := g.player
+  let other := player.other
   let g :=
-    if moved.kind = .king ∧ src = kingStart player then
+    if moved.kind = .king ∧ mv.src = kingStart player then
       tryRemoveRights c (tryRemoveRights c g player .king) player .queen
     else if moved.kind = .rook then
-      if src = kingsideRookStart player then tryRemoveRights c g player .king
-      else if src = queensideRookStart player then tryRemoveRights c g player .queen
+      if mv.src = kingsideRookStart player then tryRemoveRights c g player .king
+      else if mv.src = queensideRookStart player then tryRemoveRights c g player .queen
       else g
     else g
-  let g :=
-    if captured.isSome then
-      if dst = kingsideRookStart other then tryRemoveRights c g other .king
-      else if dst = queensideRookStart other then tryRemoveRights c g other .queen
-      else g
+  if captured.isSome then
+    if mv.dst = kingsideRookStart other then tryRemoveRights c g other .king
+    else if mv.dst = queensideRookStart other then tryRemoveRights c g other .queen
     else g
+  else g
+
+/-- `make_move`, part 5: clocks and side to move -/
+def mmFinish (c : Cfg) (g : Game) (moved : Piece) (captured : Option Piece) : Game :=
   let halfmove := if captured.isSome ∨ moved.kind = .pawn then 0 else g.halfmove + 1
-  some { g with halfmove, plies := g.plies + 1, player := other, zobrist := g.zobrist ^^^ c.zSide }
+  { g with halfmove, plies := g.plies + 1, player := g.player.other, zobrist := g.zobrist ^^^ c.zSide }
+
+/-- `Game::make_move` -/
+def makeMove (c : Cfg) (g : Game) (mv : Move) : Option Game := do
+  let (g, moved, captured) ← mmPieces c g mv
+  let newEp ← mmNewEp g mv moved
+  let g := mmSetEp c g newEp
+  let g ← mmCastle c g mv
+  let g := mmRights c g mv moved captured
+  some (mmFinish c g moved captured)
 
 /-- `Game::make_null_move` -/
 def makeNull (c : Cfg) (g : Game) : Game :=
